@@ -120,4 +120,38 @@ def inputClasses (c : Config) (d : Spec.Defs) (msgs : List Spec.Msg) : List Stri
       | .data _ recs _ => recs.any fun r => r.any fun b => b.length == 1 && 146 ≤ beNat b && beNat b ≤ 254
       | _ => false) then ["v9-proto-146-254"] else [])
 
+/-! ### C17 — feature `parse_unknown_fields` off -/
+
+/-- some cached template has a field whose library type is `Unknown` ("not known to the library") -/
+def usesUnknown (c : Config) (st : PState) : Bool :=
+  st.v9T.any (fun e => e.2.fields.any fun f => c.t.v9Ty (c.t.v9Field f.typ) == .unknown) ||
+  st.ipT.any (fun e => e.2.fields.any fun f => f.ent.isNone && c.t.ipTy (c.t.ipField f.typ) == .unknown) ||
+  st.ipO.any (fun e => e.2.fields.any fun f => f.ent.isNone && c.t.ipTy (c.t.ipField f.typ) == .unknown)
+
+/-- some template REPORTED in these packets has a field of unknown library type -/
+def reportsUnknownTemplate (c : Config) (pkts : List Packet) : Bool :=
+  pkts.any fun p =>
+    match p with
+    | .v9 _ ss => ss.any fun s => match s.body with
+      | .templates ts _ => ts.any fun t => t.fields.any fun f => c.t.v9Ty (c.t.v9Field f.typ) == .unknown
+      | _ => false
+    | .ipfix _ ss => ss.any fun s => match s.body with
+      | .template t => t.fields.any fun f => f.ent.isNone && c.t.ipTy (c.t.ipField f.typ) == .unknown
+      | .optTemplate t => t.fields.any fun f => f.ent.isNone && c.t.ipTy (c.t.ipField f.typ) == .unknown
+      | _ => false
+    | _ => false
+
+/-- no decoded data record carries a field of a type unknown to the library -/
+def noUnknownEntries (c : Config) (pkts : List Packet) : Bool :=
+  pkts.all fun p =>
+    match p with
+    | .v9 _ ss => ss.all fun s => match s.body with
+      | .data recs _ => recs.all fun r => r.all fun e => c.t.v9Ty e.2.1 != .unknown
+      | _ => true
+    | .ipfix _ ss => ss.all fun s => match s.body with
+      | .data recs _ => recs.all fun r => r.all fun e => e.2.1 == c.t.ipEnterprise || c.t.ipTy e.2.1 != .unknown
+      | .optData recs _ => recs.all fun r => r.all fun e => e.2.1 == c.t.ipEnterprise || c.t.ipTy e.2.1 != .unknown
+      | _ => true
+    | _ => true
+
 end Netflow.Findings
